@@ -1067,6 +1067,12 @@ N('davidson-extension-full-pivoting', 'C15',
 N('davidson-correction-count-from-ritz-values', 'C15',
   [('DavidsonSymEigsSolver.h', "Index(residues.cols()));", "Index(eigvals.size()));")], 'same count from the other array')
 
+# ----------------------------------------------------------------------------- F49
+M('geigs-cholesky-composite-does-not-check-A', 'C12', 'square-matrix-guard',
+  [('MatOp/internal/SymGEigsCholeskyOp.h', "        if (op.rows() != op.cols() || op.rows() != Bop.rows())\n            throw std::invalid_argument(\"SymGEigsCholeskyOp: A must be a square matrix of the same size as B\");\n", "")], 'reverts fix F49 (Cholesky mode)')
+M('geigs-reginv-composite-checks-squareness-only', 'C12', 'square-matrix-guard',
+  [('MatOp/internal/SymGEigsRegInvOp.h', "if (op.rows() != op.cols() || op.rows() != Bop.rows())", "if (op.rows() != op.cols())")], 'A square but of another size than B')
+
 # ----------------------------------------------------------------------------- F48
 M('bkldlt-solve-scales-the-solution-instead-of-the-right-hand-side', 'C10', 'factorized-matrix-normalised',
   [('LinAlg/BKLDLT.h', "        res *= (RealScalar(1) / m_scale);\n        Index npermc = m_permc.size();", "        res *= m_scale;\n        Index npermc = m_permc.size();")], 'multiplies instead of divides: wrong by scale^2')
